@@ -1453,9 +1453,6 @@ impl<'a> World<'a> {
         }
         self.trace.sort_by_key(|t| t.seq);
         self.lifetime_oracle();
-        if !matches!(self.steps.last(), Some(Step::DropRuntime)) {
-            self.push_obs("Teardown".to_string());
-        }
     }
 
     fn op_is_cqe_possible(&self, i: usize) -> bool {
@@ -1648,16 +1645,17 @@ impl<'a> World<'a> {
 
     pub fn finish(&mut self) {
         if !self.torn_down {
+            self.step_idx += 1;
             match self.prop {
                 Prop::C01 => {
-                    self.step_idx += 1;
-                    self.teardown()
+                    self.teardown();
+                    self.push_obs("(end) Teardown".to_string());
                 }
                 Prop::C02 => {
-                    self.step_idx += 1;
                     self.steps.push(Step::Stop);
                     self.epilogue();
                     self.steps.pop();
+                    self.push_obs("(end) Epilogue+Teardown".to_string());
                 }
             }
         }
